@@ -646,7 +646,77 @@ def w_fragments(args):
     return ("python-fragments", acc.result())
 
 
-WORKER_DRIVER = {"w_tokens": "token-strings", "w_random": "random-characters", "w_repeat": "repetitions", "w_histories": "flag-histories", "w_fragments": "python-fragments"}
+WORKER_DRIVER = {"w_dot_context": "dot-with-context", "w_tokens": "token-strings", "w_random": "random-characters", "w_repeat": "repetitions", "w_histories": "flag-histories", "w_fragments": "python-fragments"}
+
+
+# ---- the wildcard `.` with the variables-available context --------------------------------------
+DOT_REPRO = '''from formulaic.parser import DefaultFormulaParser
+from formulaic.errors import FormulaParsingError
+from formulaic.utils.layered_mapping import LayeredMapping
+parser = {psrc}
+s = {s!r}
+context = {ctxsrc}
+try:
+    parser.get_terms(s, context=context)
+    outcome = "returned"
+except FormulaParsingError:
+    outcome = "parsing-error"
+except SyntaxError:
+    outcome = "SyntaxError"
+except Exception as e:
+    outcome = type(e).__name__
+assert outcome in ("returned", "parsing-error"), (s, outcome)
+'''
+DOT_CONTEXTS = (
+    ("available-list", "{'__formulaic_variables_available__': ['a', 'b', 'y']}"),
+    ("available-empty", "{'__formulaic_variables_available__': []}"),
+    ("data-layer", "LayeredMapping(LayeredMapping({'a': 1, 'b': 2, 'y': 3, 'c': 4}, name='data'))"),
+)
+
+
+def dot_formulas():
+    dots = [".", "2:.", ".:2", ".**2", "(.)", "-.", ".:a", ".*a", "a/.", "./a", ". %in% a", ".:.", ". - a"]
+    extras = ["2:a", "2.5:a", "0.5:b + a", "2:a + 2:b", "2:a + 3:a", '"s"', '"s":a', "2.5", "a", "a:b", "3:a:b", "1", "0", "f(a)", "`a`"]
+    for d in dots:
+        for x in extras:
+            for tmpl in ("{x} + {d}", "{d} + {x}", "y ~ {x} + {d}", "y ~ {d} - {x}", "{x} ~ {d}", "y ~ {x} | {d}", "y ~ ({x}):({d})"):
+                yield tmpl.format(x=x, d=d)
+
+
+def w_dot_context(args):
+    shard, nshards = args
+    from formulaic.errors import FormulaParsingError
+    from formulaic.utils.layered_mapping import LayeredMapping  # noqa: F401 (used by eval of the context source)
+
+    acc = Acc()
+    for i, s in enumerate(dict.fromkeys(dot_formulas())):
+        if i % nshards != shard:
+            continue
+        for cname, ctxsrc in DOT_CONTEXTS:
+            for cfg in CONFIGS:
+                acc.n += 1
+                acc.keys.add(_digest((s, cname, cfg[0])))
+                try:
+                    parser = get_parser(cfg)
+                    ctx = eval(ctxsrc)
+                    signal.setitimer(signal.ITIMER_REAL, PARSE_TIMEOUT_S)
+                    try:
+                        parser.get_terms(s, context=ctx)
+                        oc = "returned"
+                    finally:
+                        signal.setitimer(signal.ITIMER_REAL, 0)
+                except FormulaParsingError:
+                    oc = "parsing-error"
+                except _Timeout:
+                    oc = "timeout"
+                except Exception as e:  # outcome of the code under test
+                    site = site_of(e)
+                    oc = f"{type(e).__name__}@{site}"
+                    w = {"formula": s, "config": f"{cfg[0]}, context={cname}", "exception": f"{type(e).__name__}: {e}"[:200], "site": site,
+                         "code": DOT_REPRO.format(psrc=parser_src(cfg), s=s, ctxsrc=ctxsrc)}
+                    acc.fail("C14.raises.internal", f"{type(e).__name__}@{site}/dot-with-context", w, f"get_terms({s!r}, context={cname}) [{cfg[0]}] let {type(e).__name__} escape from {site}(): {e}"[:400])
+                acc.outcomes[oc] = acc.outcomes.get(oc, 0) + 1
+    return ("dot-with-context", acc.result())
 
 
 def _run(task):
@@ -676,6 +746,8 @@ def run_bounded(ctx):
         tasks.append((w_histories, (sh, 8)))
     for sh in range(8):
         tasks.append((w_fragments, (sh, 8)))
+    for sh in range(4):
+        tasks.append((w_dot_context, (sh, 4)))
     tasks.sort(key=lambda t: 0 if t[0] is w_repeat else 1)  # longest tasks first
 
     scope_txt = "; ".join(f"{len(ALPHABETS[a])}-token alphabet '{a}' up to {l} tokens" for a, l in scopes)
@@ -696,6 +768,14 @@ def run_bounded(ctx):
             "exactly like a fresh parser with B (accept/reject and returned terms); all 64 ordered pairs (A, B) x 3 scenarios x intercept",
             exhaustive=True,
             bound="8 x 8 flag subsets, 24 probes",
+        ),
+        "dot-with-context": ctx.bounded(
+            "dot-with-context",
+            rule="13 uses of the wildcard `.` x 15 companions (numeric scalings repeated with another multiplier, string literals, bare literals, names, calls) "
+            "x 7 formula shapes, parsed WITH the available-variables context (list, empty list, LayeredMapping data layer) x 3 configurations: "
+            "returns or raises the parsing error",
+            exhaustive=True,
+            bound="see rule",
         ),
         "python-fragments": ctx.bounded(
             "python-fragments",
